@@ -3,6 +3,7 @@ produces (a) the protocol lines for the Lean model driver — including the surv
 returned by the real scipy calls, as exact rationals — and (b) the implementation's observation for
 every line."""
 import contextlib
+import logging
 import io
 import itertools
 import sys
@@ -17,6 +18,8 @@ from flodym import Dimension, DimensionSet, FlodymArray, StockArray  # noqa: E40
 from flodym import lifetime_models as lm_mod  # noqa: E402
 from flodym.lifetime_models import UnevenTimeDim  # noqa: E402
 from flodym.stocks import InflowDrivenDSM, StockDrivenDSM, SimpleFlowDrivenStock  # noqa: E402
+
+logging.disable(logging.WARNING)
 
 EXTRA = [("r", "region"), ("g", "good")]
 
@@ -150,29 +153,41 @@ def run_case(spec, lines, out):
         kind = op["kind"]
         line = None
         try:
+            k = int(op.get("scale", 0))
+            f, g = 2.0 ** (-k), 2.0 ** k
+            x = "x" if k else ""
+            pre = f" {k}" if k else ""
+
+            def driver_array(tokens):
+                a = arr(tokens)
+                if op.get("int") and k == 0 and np.all(a == np.round(a)):
+                    return a.astype(int)          # counts held with an integer dtype
+                return a * f
             if kind == "idsm":
-                line = "idsm " + " ".join(op["inflow"])
+                line = f"idsm{x}{pre} " + " ".join(op["inflow"])
                 s = InflowDrivenDSM(dims=dims, lifetime_model=model, time_letter="t",
-                                    inflow=StockArray(dims=dims, values=arr(op["inflow"])))
+                                    inflow=StockArray(dims=dims, values=driver_array(op["inflow"])))
                 s.compute()
-                emit(line, f"ok S {nums(s.stock.values)} | O {nums(s.outflow.values)} | SC {nums(s.get_stock_by_cohort())} | OC {nums(s.get_outflow_by_cohort())}")
+                emit(line, f"ok S {nums(s.stock.values * g)} | O {nums(s.outflow.values * g)} | SC {nums(s.get_stock_by_cohort() * g)} | "
+                           f"OC {nums(s.get_outflow_by_cohort() * g)} | D {nums(s.inflow.values * g)}")
                 last = s
             elif kind == "sdsm":
                 if float(np.min(np.abs(np.moveaxis(sf.diagonal(0, 0, 1), -1, 0)))) < 0.05:
                     continue  # the property is stated for first-interval survival >= 0.05
                 if op.get("stock") == "from_idsm":
-                    if last is None:
+                    if last is None or k:
                         continue
-                    st = last.stock.values.copy()
-                    toks = [fmt_num(x) for x in st.flatten()]
+                    st = np.asarray(last.stock.values, dtype=float).copy()
+                    toks = [fmt_num(x_) for x_ in st.flatten()]
                 else:
                     toks = op["stock"]
-                    st = arr(toks)
-                line = "sdsm " + " ".join(toks)
+                    st = driver_array(toks)
+                line = f"sdsm{x}{pre} " + " ".join(toks)
                 s = StockDrivenDSM(dims=dims, lifetime_model=model, time_letter="t", solver=op["solver"],
                                    stock=StockArray(dims=dims, values=st))
                 s.compute()
-                emit(line, f"ok I {nums(s.inflow.values)} | O {nums(s.outflow.values)} | SC {nums(s.get_stock_by_cohort())} | OC {nums(s.get_outflow_by_cohort())}")
+                emit(line, f"ok I {nums(s.inflow.values * g)} | O {nums(s.outflow.values * g)} | SC {nums(s.get_stock_by_cohort() * g)} | "
+                           f"OC {nums(s.get_outflow_by_cohort() * g)} | D {nums(s.stock.values * g)}")
                 last = s
             elif kind == "fds":
                 line = "fds " + " ".join(op["inflow"]) + " ; " + " ".join(op["outflow"])
